@@ -2,7 +2,7 @@
     every search response and the shape of the state with what the real
     queryLog did. *)
 From Coq Require Export Uint63.
-From AGH Require Export Base.Run Model.QLogFile Model.QLog Model.QLogCodec Model.QLogServe.
+From AGH Require Export Base.Run Model.QLogFile Model.QLog Model.QLogCodec Model.QLogServe Model.QLogRotate.
 Local Open Scope Z_scope.
 
 (** Byte strings are printed packed, seven bytes to a primitive integer
@@ -44,7 +44,10 @@ Inductive hstep :=
   | HAnon (b : bool)
   (* GET /control/querylog with the client column: rows = (id, index of the
      "client" text in the case's table of address texts) *)
-  | HSearchC (q : request) (code : Z) (rows : list (N * N)) (oldest : Z).
+  | HSearchC (q : request) (code : Z) (rows : list (N * N)) (oldest : Z)
+  (* queryLog.checkAndRotate run as a whole with rotation interval [ivl] (ns),
+     [now] = a clock reading taken right after it *)
+  | HCheckRot (ivl now : Z).
 
 (** One file line through the real codec.  [src]: the entry json.Marshal was
     given (None for hand-written lines); [good_*]: the strings of the line Go's
@@ -118,6 +121,9 @@ Fixpoint replay (me bf : Z) (texts : list bytes) (t : mask_tbl) (s : sstate) (st
       let (s', resp) := serve me bf t s q in
       resp_ok texts resp code rows oldest && replay me bf texts t s' r
   | HSearchP p code ids oldest :: r => searchp_ok me bf (st s) p code ids oldest && replay me bf texts t s r
+  | HCheckRot ivl now :: r =>
+      (* the code as it is: a missing file counts as infinitely old *)
+      replay me bf texts t {| st := check_and_rotate true ivl now (st s); anon := anon s |} r
   end.
 
 (** *** codec cases *)
@@ -223,6 +229,8 @@ Fixpoint explain_steps (me bf : Z) (texts : list bytes) (t : mask_tbl) (s : ssta
        | BadRequest => (1, [], 0)
        | Panic => (2, [], 0)
        end, searchp_ok me bf (st s) p code ids oldest) :: explain_steps me bf texts t s r
+  | HCheckRot ivl now :: r =>
+      explain_steps me bf texts t {| st := check_and_rotate true ivl now (st s); anon := anon s |} r
   end.
 
 (** For codec cases: (0, ids unused, 0, flag) rows: encode agrees, decode
